@@ -1762,6 +1762,16 @@ func (fr *frame) execConvert(x *ssa.Convert) {
 		default:
 			fr.vals[x] = Val{T: c.ufun("f2i", "Int", []string{"F"}, v.T), Ty: to}
 		}
+	case isString(from) && isByteSlice(to):
+		// []byte(s): a fresh slice holding the bytes of s
+		c.declOnce("strat", "(declare-fun strat (Str Int) Int)\n(assert (forall ((s Str) (i Int)) (! (and (>= (strat s i) 0) (<= (strat s i) 255)) :pattern ((strat s i)))))")
+		st := fr.curSt
+		es := c.hk(to.Underlying().(*types.Slice).Elem())
+		obj := fr.allocObj(st, x.Name())
+		arr := c.declConst("strbytes", "(Array Int Int)")
+		fr.assumeR(fmt.Sprintf("(forall ((i Int)) (! (= (select %s i) (strat %s i)) :pattern ((select %s i))))", arr, v.T, arr))
+		c.wrObj(st, es, obj, arr)
+		fr.vals[x] = Val{T: c.define("cv_"+x.Name(), "Slice", fmt.Sprintf("(mkslice %s 0 (strlen %s) (strlen %s))", obj, v.T, v.T)), Ty: to}
 	case isString(to) || isString(from):
 		c.assumed["string conversion (uninterpreted)"] = true
 		fs, ts := c.sortOf(from), c.sortOf(to)
@@ -1977,4 +1987,13 @@ func (fr *frame) execPanic(x *ssa.Panic, st *State) {
 		}
 		fr.oblige("safety", "panicvalue", nil, or(alts...), "the value of this panic has one of the types declared by panics_with: "+fr.c.prog.sourceLine(fr.c.prog.Fset.Position(x.Pos())), x.Pos())
 	}
+}
+
+func isByteSlice(t types.Type) bool {
+	sl, ok := t.Underlying().(*types.Slice)
+	if !ok {
+		return false
+	}
+	b, ok := sl.Elem().Underlying().(*types.Basic)
+	return ok && (b.Kind() == types.Uint8 || b.Kind() == types.Byte)
 }
